@@ -969,8 +969,8 @@ theorem resample_rejects (f : Fld) (n : List Int)
 
 /-- Every coordinate inside the region selects a plane: `Mesh.sel` returns the mesh with the
 axis removed and `Field.sel` returns a field on it. -/
-theorem sel_plane_accepts (f : Fld) (hf : FldWF f) (hs : f.mesh.subs = []) (h2 : 2 ≤ f.mesh.ndim)
-    (dim : String) (a : Nat) (hd : f.mesh.region.dim2index dim = .ok a) (x : Rat)
+theorem sel_plane_accepts (f : Fld) (hf : FldWF f) (hmeta : metaOk f = true) (hs : f.mesh.subs = [])
+    (h2 : 2 ≤ f.mesh.ndim) (dim : String) (a : Nat) (hd : f.mesh.region.dim2index dim = .ok a) (x : Rat)
     (h1 : f.mesh.region.lo a ≤ x) (hx2 : x ≤ f.mesh.region.hi a) :
     selMesh f.mesh dim (.point x) = .ok (planeOf f.mesh a) ∧
     ∃ g, selFld f dim (.point x) = .ok (.field g) := by
@@ -983,17 +983,17 @@ theorem sel_plane_accepts (f : Fld) (hf : FldWF f) (hs : f.mesh.subs = []) (h2 :
   unfold selFld
   rw [hconv, hmesh]
   simp only
-  unfold mkFld
-  rw [if_neg (by
-    intro hcon
-    rcases hcon with hcon | hcon
-    · exact hcon (by show removeAt f.data.shape a = removeAt f.mesh.n a; rw [hds])
-    · exact hcon (by show removeAt f.valid.shape a = removeAt f.mesh.n a; rw [hvs]))]
+  obtain ⟨g, hg⟩ := mkFld_ok (planeOf f.mesh a) f
+    (selData f.data a (.plane (f.mesh.centreAx a ((f.mesh.indexAx a x : Nat) : Int)) (f.mesh.indexAx a x)))
+    (selData f.valid a (.plane (f.mesh.centreAx a ((f.mesh.indexAx a x : Nat) : Int)) (f.mesh.indexAx a x)))
+    (by show removeAt f.data.shape a = removeAt f.mesh.n a; rw [hds])
+    (by show removeAt f.valid.shape a = removeAt f.mesh.n a; rw [hvs]) hmeta
+  rw [hg]
   exact ⟨_, rfl⟩
 
 /-- Every range inside the region (bounds in either order) is accepted by `Mesh.sel` and
 `Field.sel`. -/
-theorem sel_range_accepts (f : Fld) (hf : FldWF f) (hs : f.mesh.subs = [])
+theorem sel_range_accepts (f : Fld) (hf : FldWF f) (hmeta : metaOk f = true) (hs : f.mesh.subs = [])
     (dim : String) (a : Nat) (hd : f.mesh.region.dim2index dim = .ok a) (x y : Rat)
     (h1 : f.mesh.region.lo a ≤ min x y) (h2 : max x y ≤ f.mesh.region.hi a) :
     (∃ g, selMesh f.mesh dim (.range x y) = .ok g) ∧ ∃ g, selFld f dim (.range x y) = .ok (.field g) := by
@@ -1007,42 +1007,47 @@ theorem sel_range_accepts (f : Fld) (hf : FldWF f) (hs : f.mesh.subs = [])
   unfold selFld
   rw [hconv, hmesh]
   simp only
-  unfold mkFld
   have hsh : f.mesh.indexAx a (max x y) + 1 - f.mesh.indexAx a (min x y)
       = f.mesh.indexAx a (max x y) - f.mesh.indexAx a (min x y) + 1 := by omega
-  rw [if_neg (by
-    intro hcon
-    rcases hcon with hcon | hcon
-    · exact hcon (by
-        show setAt f.data.shape a (f.mesh.indexAx a (max x y) + 1 - f.mesh.indexAx a (min x y)) = gm.n
-        rw [hgn, hds, hsh])
-    · exact hcon (by
-        show setAt f.valid.shape a (f.mesh.indexAx a (max x y) + 1 - f.mesh.indexAx a (min x y)) = gm.n
-        rw [hgn, hvs, hsh]))]
+  obtain ⟨g, hg⟩ := mkFld_ok gm f
+    (selData f.data a (.range (f.mesh.centreAx a ((f.mesh.indexAx a (min x y) : Nat) : Int))
+      (f.mesh.centreAx a ((f.mesh.indexAx a (max x y) : Nat) : Int))
+      (f.mesh.indexAx a (min x y)) (f.mesh.indexAx a (max x y))))
+    (selData f.valid a (.range (f.mesh.centreAx a ((f.mesh.indexAx a (min x y) : Nat) : Int))
+      (f.mesh.centreAx a ((f.mesh.indexAx a (max x y) : Nat) : Int))
+      (f.mesh.indexAx a (min x y)) (f.mesh.indexAx a (max x y))))
+    (by
+      show setAt f.data.shape a (f.mesh.indexAx a (max x y) + 1 - f.mesh.indexAx a (min x y)) = gm.n
+      rw [hgn, hds, hsh])
+    (by
+      show setAt f.valid.shape a (f.mesh.indexAx a (max x y) + 1 - f.mesh.indexAx a (min x y)) = gm.n
+      rw [hgn, hvs, hsh]) hmeta
+  rw [hg]
   exact ⟨_, rfl⟩
 
 /-- Every box inside the region is accepted by `mesh[region]` and `field[region]`. -/
-theorem getitem_region_accepts (f : Fld) (hf : FldWF f) (item : Region) (hbox : BoxIn f.mesh item)
-    (hpm : item.pmax.length = f.mesh.ndim) :
+theorem getitem_region_accepts (f : Fld) (hf : FldWF f) (hmeta : metaOk f = true) (item : Region)
+    (hbox : BoxIn f.mesh item) (hpm : item.pmax.length = f.mesh.ndim) :
     (∃ g, getRegion f.mesh item = .ok g) ∧ ∃ g, getItem f (.region item) = .ok g := by
   obtain ⟨sm, hsm, hsn⟩ := getRegion_ok f.mesh hf.1 item hbox hpm
   obtain ⟨e1, _, _, _, _, _, _, _, e9⟩ := getRegion_inv f.mesh hf.1 item hbox sm hsm
   exact ⟨⟨sm, hsm⟩, getItem_ok_of_block f hf (.region item) sm hsm e1 (blockLo f.mesh item)
     (fun b => blockHi f.mesh item b - blockLo f.mesh item b + 1) (fun b _ => by omega)
-    (fun b hb => (e9 b hb).2.2.2) hsn⟩
+    (fun b hb => (e9 b hb).2.2.2) hsn hmeta⟩
 
 /-- Every subregion made of whole cells is accepted by `mesh[name]` and `field[name]`. -/
-theorem getitem_name_accepts (f : Fld) (hf : FldWF f) (name : String) (s : Region)
+theorem getitem_name_accepts (f : Fld) (hf : FldWF f) (hmeta : metaOk f = true) (name : String) (s : Region)
     (hfind : findSub f.mesh.subs name = some s) (k1 k2 : Nat → Nat) (hal : SubAligned f.mesh s k1 k2) :
     (∃ g, getName f.mesh name = .ok g) ∧ ∃ g, getItem f (.name name) = .ok g := by
   obtain ⟨sm, hsm, hsn⟩ := getName_ok f.mesh hf.1 name s hfind k1 k2 hal
   obtain ⟨_, e1, _, e3⟩ := getName_inv f.mesh hf.1 name s hfind k1 k2 hal sm hsm
   exact ⟨⟨sm, hsm⟩, getItem_ok_of_block f hf (.name name) sm hsm e1 k1 (fun b => k2 b - k1 b)
-    (fun b hb => by have := (hal.2.2 b hb).1; omega) e3 hsn⟩
+    (fun b hb => by have := (hal.2.2 b hb).1; omega) e3 hsn hmeta⟩
 
 /-- Non-negative pad widths on existing axes are accepted by `Mesh.pad` and `Field.pad`, in
 every mode. -/
-theorem pad_accepts (f : Fld) (hf : FldWF f) (pw : List PadW) (hnd : (pw.map (·.dim)).Nodup)
+theorem pad_accepts (f : Fld) (hf : FldWF f) (hmeta : metaOk f = true) (pw : List PadW)
+    (hnd : (pw.map (·.dim)).Nodup)
     (hdims : ∀ w, w ∈ pw → ∃ a, f.mesh.region.dim2index w.dim = .ok a)
     (hpos : ∀ w, w ∈ pw → 0 ≤ w.lo ∧ 0 ≤ w.hi)
     (hbc : Mesh.bcOk f.mesh.region.dims f.mesh.bc.toLower = true) (mode : PadMode) :
@@ -1099,20 +1104,17 @@ theorem pad_accepts (f : Fld) (hf : FldWF f) (pw : List PadW) (hnd : (pw.map (·
   simp only [Bool.false_eq_true, if_false]
   rw [hgm]
   simp only
-  unfold mkFld
-  rw [if_neg (by
-    intro hcon
-    rcases hcon with hcon | hcon
-    · apply hcon
+  exact mkFld_ok _ _ _ _
+    (by
       show (tab f.data.shape.length fun b => f.data.shape.getD b 0 + ((widthOf d) b).1.toNat + ((widthOf d) b).2.toNat) = gm.n
-      rw [hgn, hds, hw, inv_n_length hinv]; rfl
-    · apply hcon
+      rw [hgn, hds, hw, inv_n_length hinv]; rfl)
+    (by
       show (tab f.valid.shape.length fun b => f.valid.shape.getD b 0 + ((widthOf d) b).1.toNat + ((widthOf d) b).2.toNat) = gm.n
-      rw [hgn, hvs, hw, inv_n_length hinv]; rfl)]
-  exact ⟨_, rfl⟩
+      rw [hgn, hvs, hw, inv_n_length hinv]; rfl) hmeta
 
 /-- Every list of positive cell counts of the right length is accepted by `Field.resample`. -/
-theorem resample_accepts (f : Fld) (hf : f.mesh.Inv) (n : List Int) (hl : n.length = f.mesh.ndim)
+theorem resample_accepts (f : Fld) (hf : f.mesh.Inv) (hmeta : metaOk f = true) (n : List Int)
+    (hl : n.length = f.mesh.ndim)
     (hpos : ∀ k, k ∈ n → 0 < k) : ∃ g, resample f n = .ok g := by
   unfold resample
   rw [if_neg (by omega)]
@@ -1142,9 +1144,7 @@ theorem resample_accepts (f : Fld) (hf : f.mesh.Inv) (n : List Int) (hl : n.leng
     rfl
   rw [hc]
   simp only [Bool.not_true, Bool.false_eq_true, if_false]
-  unfold mkFld
-  rw [if_neg (by intro hcon; rcases hcon with hcon | hcon <;> exact hcon rfl)]
-  exact ⟨_, rfl⟩
+  exact mkFld_ok _ _ _ _ rfl rfl hmeta
 
 /-! ## Non-vacuity: every hypothesis used above is met by a concrete field
 
@@ -1156,7 +1156,7 @@ open Ex
 /-- hypotheses of `selConvert_point`, `sel_plane_accepts` (and so of `sel_plane_shape`,
 `sel_plane_pointwise`): the plane `x = 5/2` of `f0` -/
 example : ∃ g, selFld f0 "x" (.point (5/2)) = .ok (.field g) :=
-  (sel_plane_accepts f0 f0_wf rfl (by decide) "x" 0 (by decide) (5/2)
+  (sel_plane_accepts f0 f0_wf rfl rfl (by decide) "x" 0 (by decide) (5/2)
     (by norm_num [f0, m0, reg, Region.lo]) (by norm_num [f0, m0, reg, Region.hi])).2
 
 /-- … and it is not trivial: the selected layer is cell 2, not cell 0 -/
@@ -1171,14 +1171,14 @@ example : ∃ g, selFld f0 "y" .centre = .ok (.field g) := by
     unfold selFld selMesh
     rw [selConvert_centre f0.mesh f0_wf.1 "y" 1 (by decide)]
     norm_num [f0, m0, reg, Region.lo, Region.hi]]
-  exact (sel_plane_accepts f0 f0_wf rfl (by decide) "y" 1 (by decide) 1
+  exact (sel_plane_accepts f0 f0_wf rfl rfl (by decide) "y" 1 (by decide) 1
     (by norm_num [f0, m0, reg, Region.lo]) (by norm_num [f0, m0, reg, Region.hi])).2
 
 /-- hypotheses of `selConvert_range`, `sel_range_shape`, `sel_range_pointwise`: bounds given
 in descending order -/
 example : (∃ g, selMesh f0.mesh "x" (.range (7/2) (1/2)) = .ok g) ∧
     ∃ g, selFld f0 "x" (.range (7/2) (1/2)) = .ok (.field g) :=
-  sel_range_accepts f0 f0_wf rfl "x" 0 (by decide) (7/2) (1/2)
+  sel_range_accepts f0 f0_wf rfl rfl "x" 0 (by decide) (7/2) (1/2)
     (by norm_num [f0, m0, reg, Region.lo]) (by norm_num [f0, m0, reg, Region.hi])
 
 /-- hypothesis of `sel_outside_rejected`: `x = 9/2` is outside `[0, 4]` -/
@@ -1188,13 +1188,13 @@ example : ∃ e, selFld f0 "x" (.point (9/2)) = .error e :=
 
 /-- hypotheses of `getRegion_smallest`, `getitem_region_pointwise`: an arbitrary box -/
 example : BoxIn f0.mesh box ∧ (∃ g, getRegion f0.mesh box = .ok g) ∧ ∃ g, getItem f0 (.region box) = .ok g :=
-  ⟨box_in, getitem_region_accepts f0 f0_wf box box_in rfl⟩
+  ⟨box_in, getitem_region_accepts f0 f0_wf rfl box box_in rfl⟩
 
 /-- hypotheses of `getRegion_aligned_exact`, `region2slices_spec`, `getitem_name_pointwise`:
 the subregion `a` consists of whole cells -/
 example : SubAligned f1.mesh s0 k1 k2 ∧ findSub f1.mesh.subs "a" = some s0 ∧
     ∃ g, getItem f1 (.name "a") = .ok g :=
-  ⟨s0_aligned, rfl, (getitem_name_accepts f1 f1_wf "a" s0 rfl k1 k2 s0_aligned).2⟩
+  ⟨s0_aligned, rfl, (getitem_name_accepts f1 f1_wf rfl "a" s0 rfl k1 k2 s0_aligned).2⟩
 
 example : region2slices m1 s0 = .ok [(1, 3), (0, 1)] :=
   (region2slices_spec m1 m1_inv s0 k1 k2 s0_aligned).1
@@ -1206,7 +1206,7 @@ example : ∃ e, getItem f1 (.name "b") = .error e :=
 /-- hypotheses of `pad_counts`, `pad_rule`, `pad_inside_pointwise`: pad x by (1, 2), y by (0, 1) -/
 example (mode : PadMode) : (pw0.map (·.dim)).Nodup ∧ (∃ g, padMesh f0.mesh pw0 = .ok g) ∧
     ∃ g, padFld f0 pw0 mode = .ok g :=
-  ⟨by decide, pad_accepts f0 f0_wf pw0 (by decide)
+  ⟨by decide, pad_accepts f0 f0_wf rfl pw0 (by decide)
     (by
       intro w hw
       simp only [pw0, List.mem_cons, List.mem_nil_iff, or_false] at hw
@@ -1226,11 +1226,11 @@ example : padSrc .constant 4 3 0 = none ∧ padSrc .edge 4 3 0 = some 0 ∧ padS
 
 /-- hypotheses of `resample_region`, `resample_pointwise`: 4 × 2 → 2 × 3 -/
 example : ∃ g, resample f0 [2, 3] = .ok g :=
-  resample_accepts f0 f0_wf.1 [2, 3] rfl (by decide)
+  resample_accepts f0 f0_wf.1 rfl [2, 3] rfl (by decide)
 
 /-- hypothesis of `resample_id` -/
 example : ∃ g, resample f0 (f0.mesh.n.map Int.ofNat) = .ok g :=
-  resample_accepts f0 f0_wf.1 _ rfl (by decide)
+  resample_accepts f0 f0_wf.1 rfl _ rfl (by decide)
 
 /-- hypothesis of `resample_rejects` -/
 example : ∃ e, resample f0 [2, 0] = .error e :=
